@@ -9,7 +9,7 @@ from sx import Sym
 
 RULE = ("seeded call sequences (length<=10) on Data3D, ForceTorque3D (add_track, tracks = …) and EMG (addSignal): tracks of the "
         "block's length and of other lengths, non-track objects (None, str, ndarray, int, a track of another block kind) at every "
-        "position of assigned lists, generators that raise midway, non-iterables; observed after each call: identity of the tracks "
+        "position of assigned lists, generators that raise midway, non-iterables; after half of the list assignments the caller appends a wrong-length track to / deletes from ITS list; observed after each call: identity of the tracks "
         "held (block.tracks / iteration) and raised?; non-trivial = sequence with >=1 refused call after >=1 accepted; distinct by calls")
 ASSUMPTIONS = ["'refused' = raises; the exception class is not part of the property"]
 
@@ -64,6 +64,7 @@ def held(kind, blk, ids):
 def run(ctx):
     rng = ctx.rng
     runs = []
+    aliased = []
     for _ in range(ctx.n(1200, 40000)):
         kind = rng.choice(["data3d", "force3d", "emg"])
         n = rng.choice([0, 1, 2, 5, 9])     # 0: a block that was created empty ("any frame count")
@@ -101,6 +102,16 @@ def run(ctx):
                     exc = e
                 calls.append([Sym("assign"), [m for _, m in offered], Sym("none") if boom is None else boom])
                 desc = "assign" + ("(raising iterable)" if boom is not None else "")
+                if isinstance(values, list) and rng.random() < 0.5:
+                    # the caller goes on using ITS list: the block must have taken the tracks, not the list
+                    before_ids = held(kind, blk, ids)
+                    wrong = mk_track(kind, n + 3, rng)
+                    values.append(wrong)
+                    if rng.random() < 0.5 and len(values) > 1:
+                        del values[0]
+                    after_ids = held(kind, blk, ids)
+                    if after_ids != before_ids or any((t.nFrames != n) for t in blk):
+                        aliased.append((kind, n, [str(c) for c in calls], before_ids, after_ids))
             else:
                 o, m = gen_offered(kind, n, rng, ids)
                 exc = None
@@ -113,6 +124,9 @@ def run(ctx):
             lens_ok = all((t.nSamples if kind == "emg" else t.nFrames) == n for t in blk)
             obs.append((desc, exc, held(kind, blk, ids), lens_ok))
         runs.append((kind, n, calls, obs))
+    for kind, n, calls, b, a in aliased[:5]:
+        ctx.fail(f"{kind} (nFrames={n}): after `block.tracks = lst` the caller changed lst and the block's tracks changed with it ({b} -> {a}): "
+                 f"a wrong-length track entered without any call on the block", dict(kind=kind, n=n, calls=calls), ident=f"{kind} assigned list stays shared with the caller")
     replies = common.drv_batch([[Sym("tb.run"), n, calls] for _, n, calls, _ in runs])
     for (kind, n, calls, obs), rep in zip(runs, replies):
         accepted_then_refused = False
